@@ -372,7 +372,7 @@ def gen_case(rng, tier, kind):
              "nodes": [list(p) for p in m.nodes],
              "mesh_class": ("closed" if closed else "partial") + ("" if min(val) >= 3 or not closed else "_valence2"),
              "min_valence": min(val), "max_valence": max(val),
-             "extent_class": "coarse" if ext > 0.9 else "moderate" if ext > 0.45 else "fine"}
+             "extent_class": "coarse" if ext > 0.9 else "moderate" if ext > 0.35 else "fine"}
         return c
     raise RuntimeError("generator could not produce a mesh of kind " + kind)
 
@@ -387,8 +387,8 @@ def gen_cases(ck):
             c = json.load(open(os.path.join(cdir, fn)))
             c["kind"] = "corpus"
             cases.append(c)
-    plan = [("fan", 20 if quick else 150), ("poly", 30 if quick else 100), ("closed", 140 if quick else 1500), ("refined", 30 if quick else 150),
-            ("antimeridian", 40 if quick else 300), ("partial", 110 if quick else 1200)]
+    plan = [("fan", 20 if quick else 150), ("poly", 30 if quick else 100), ("closed", 110 if quick else 1500), ("refined", 20 if quick else 150),
+            ("antimeridian", 30 if quick else 300), ("partial", 80 if quick else 1200)]
     for kind, n in plan:
         for _ in range(n):
             cases.append(gen_case(rng, ck.tier, kind))
@@ -515,9 +515,16 @@ def run_checks(ck, c, res, rng, mconn, do_data=True):
 
 
 def main(ck):
+    import time
+    tm = {}
+    t0 = time.time()
     ck.check_props()
     ok = ck.build_driver()
+    tm["coq_build_and_props"] = round(time.time() - t0, 1)
+    t0 = time.time()
     cases = gen_cases(ck)
+    tm["generate"] = round(time.time() - t0, 1)
+    t0 = time.time()
     ck.cov["rule"] = ("corpus + bipyramids with very uneven faces + 9 seed polyhedra + closed sphere tilings grown by split/subdivide/stellate/dual "
                       "(meshgen), refined tilings (2-3 rounds of stellation with random triangle pairs merged into "
                       "quads), tilings with a node exactly on the antimeridian / on a pole, partial grids by face "
@@ -540,6 +547,8 @@ def main(ck):
         for x in inc:
             val_hist[len(x)] = val_hist.get(len(x), 0) + 1
         results.append(run_impl(ck, c))
+    tm["implementation"] = round(time.time() - t0, 1)
+    t0 = time.time()
     # ---- the exact model on the same inputs ------------------------------------------------------
     models = [None] * len(cases)
     if ok:
@@ -551,6 +560,8 @@ def main(ck):
         mo = ck.run_model("c18dual", lines) if lines else []
         for ci, m in zip(owners, mo):
             models[ci] = m
+    tm["model"] = round(time.time() - t0, 1)
+    t0 = time.time()
     # ---- property clauses on the implementation output --------------------------------------------
     for idx, (c, res) in enumerate(zip(cases, results)):
         if res is None:
@@ -565,6 +576,8 @@ def main(ck):
             faces = [[x for x in r if x != FILL] for r in c["table"]]
             ck.sample({"kind": c["kind"], "name": c["name"], "mesh_class": c["mesh_class"],
                        "primal_faces": faces[:4], "dual_rows_impl": [["F" if x == FILL else x for x in r] for r in res["conn"][:4]]})
+    tm["clauses_and_data"] = round(time.time() - t0, 1)
+    t0 = time.time()
     # ---- model correspondence ---------------------------------------------------------------
     n_corr = n_skip = n_model_wrong = 0
     if ok:
@@ -607,6 +620,8 @@ def main(ck):
                         continue
                     ck.corr_failures.append({"case": c["name"], "table": c["table"], "lonlat": c["lonlat"], "node": v,
                                              "impl": a, "model": b, "margin": marg.get(v)})
+    tm["correspondence"] = round(time.time() - t0, 1)
+    t0 = time.time()
     # ---- JIT off --------------------------------------------------------------------------------
     n_nojit = 0
     sample = [(c, r) for c, r in zip(cases, results) if r is not None and len(c["table"]) <= 40]
@@ -623,6 +638,8 @@ def main(ck):
                             detail="JIT off: %r ; JIT on: %r" % (str(o)[:300], str(r["conn"])[:300]))
         except Exception as ex:
             ck.proof["errors"].append("JIT-off run failed: " + repr(ex)[:800])
+    tm["jit_off"] = round(time.time() - t0, 1)
+    t0 = time.time()
     # ---- extraction audit -------------------------------------------------------------------------
     audit_n = 0
     if ok:
@@ -655,7 +672,9 @@ def main(ck):
                     if nums != flat:
                         ck.proof["errors"].append("extraction audit mismatch: kernel %s vs extracted %s" % (nums[:20], flat[:20]))
                     audit_n += 1
+    tm["audit"] = round(time.time() - t0, 1)
     ck.extra.update({
+        "phase_seconds": tm,
         "case_kinds": hist, "mesh_classes": cls_hist, "node_valence_histogram": {str(k): v for k, v in sorted(val_hist.items())},
         "face_extent_classes": ext_hist, "face_convexity": conv_hist, "model_vs_impl_rows_compared": n_corr, "rows_skipped_near_tie(<1e-9)": n_skip,
         "rows_where_the_exact_model_violates_the_ring_clause": n_model_wrong,
